@@ -307,7 +307,23 @@ def r11(ctx: Ctx) -> RuleReport:
 
 
 # ---------------------------------------------------------------------------------------------
-def may_unproven(cfg: CFG, accept: Set[Tuple[str, bool]], killers: Set[str]) -> Dict[int, Set[str]]:
+def endless_loops(ctx: Ctx, fi: FuncInfo, cfg: CFG) -> Set[int]:
+    """CFG ids of `for` loops over an iterator that never ends (itertools.count, possibly inside chain/generators)."""
+    out = set()
+    for n in walk_local(fi.node):
+        if isinstance(n, ast.For):
+            src = norm(n.iter)
+            for x in ast.walk(n.iter):
+                if isinstance(x, ast.Name):
+                    d = single_def(ctx, fi, x)
+                    if d is not x:
+                        src += ' ' + norm(d)
+            if 'count(' in src and 'islice' not in src and 'takewhile' not in src:
+                out.add(cfg.node_of(n))
+    return out
+
+
+def may_unproven(cfg: CFG, accept: Set[Tuple[str, bool]], killers: Set[str], endless: Optional[Set[int]] = None) -> Dict[int, Set[str]]:
     """Forward may-analysis.  State 'U' (unproven) / 'P' (proven).  An edge out of a cond node whose
     (condition, polarity) is in `accept` turns U into P; a node that re-binds or mutates a name in
     `killers` turns P back into U.  Returns the possible states on entry to each node."""
@@ -321,8 +337,8 @@ def may_unproven(cfg: CFG, accept: Set[Tuple[str, bool]], killers: Set[str]) -> 
             out = set()
             for s in IN[n]:
                 s2 = s
-                if node.kind == 'for' and lab == 'F' and isinstance(getattr(node.ast, 'iter', None), ast.Call) \
-                        and norm(node.ast.iter.func) in ('count', 'itertools.count'):
+                if node.kind == 'for' and lab == 'F' and ((isinstance(getattr(node.ast, 'iter', None), ast.Call)
+                                                          and norm(node.ast.iter.func) in ('count', 'itertools.count')) or (endless and n in endless)):
                     continue                # an endless counter: the loop is only left by break
                 if node.kind in ('stmt', 'for') and not (node.kind == 'for' and lab == 'F'):
                     if (assigned_names(node.ast) | mutated_bases(node.ast)) & killers:
@@ -379,7 +395,7 @@ def r31(ctx: Ctx) -> RuleReport:
                 else:
                     rep.undecided(k2, fi.loc(a), f'{[norm(x)[:40] for x in inits]}')
             if tested:
-                states = may_unproven(cfg, {(f'{X} in {S}', False), (f'{X} not in {S}', True)}, {X})
+                states = may_unproven(cfg, {(f'{X} in {S}', False), (f'{X} not in {S}', True)}, {X}, endless_loops(ctx, fi, cfg))
                 nid = owner_node(cfg, pm, a)
                 bad = 'U' in states.get(nid, {'U'})
                 rep.add(key, fi.loc(a), 'violation' if bad else 'ok',
@@ -448,12 +464,12 @@ def r31(ctx: Ctx) -> RuleReport:
                 continue
             for hr in hrets:
                 hv = hr.ast.value.id
-                st = may_unproven(hcfg, {(f'{hv} in {hp}', False), (hp, False), (f'{hv} not in {hp}', True)}, {hv})
+                st = may_unproven(hcfg, {(f'{hv} in {hp}', False), (hp, False), (f'{hv} not in {hp}', True)}, {hv}, endless_loops(ctx, h, hcfg))
                 bad = 'U' in st.get(hr.id, {'U'})
                 rep.add(key + f' (via {h.qualname})', h.loc(hr.ast), 'violation' if bad else 'ok',
                         f'{h.qualname} can return {hv} without having tested it against {hp}' if bad else '')
             continue
-        states = may_unproven(cfg, {(f'{var} in {vp}', False), (vp, False), (f'{var} not in {vp}', True)}, {var})
+        states = may_unproven(cfg, {(f'{var} in {vp}', False), (vp, False), (f'{var} not in {vp}', True)}, {var}, endless_loops(ctx, fi, cfg))
         bad = 'U' in states.get(r.id, {'U'})
         rep.add(key, fi.loc(r.ast), 'violation' if bad else 'ok',
                 f'{var} can be returned without having been tested against {vp}' if bad else '')
